@@ -180,4 +180,50 @@ theorem decrypt_of_honest_header (b : Bool) (c : Crypto) (cd : Codec) (P : EncPa
     simp [verifyHeader, lcd.unb64_b64]
   rw [hv]
 
+
+/-! ### the README-only decoder -/
+
+theorem splitLine_append (line rest : Bytes) (h : (10 : UInt8) ∉ line) :
+    splitLine (line ++ 10 :: rest) = some (line, rest) := by
+  induction line with
+  | nil => simp [splitLine]
+  | cons b bs ih =>
+    have hb : b ≠ 10 := fun h0 => h (by simp [h0])
+    have hbs : (10 : UInt8) ∉ bs := fun h0 => h (by simp [h0])
+    simp [splitLine, hb, ih hbs]
+
+theorem specOpenSegs_sealed (c : Crypto) (P : EncParams) (cph : Nat) (pk np : Bytes) (ov : Nat)
+    (lc : c.Lawful ov) : ∀ (segs : List (Bytes × Bool)) (i : Nat),
+    specOpenSegs c P cph pk np i (sealedSegs c P cph pk np i segs) = some ((segs.map (·.1)).flatten) := by
+  intro segs
+  induction segs with
+  | nil => intro i; rfl
+  | cons a t ih =>
+    intro i
+    obtain ⟨d, l⟩ := a
+    rw [sealedSegs_cons]
+    simp only [specOpenSegs, lc.open_seal, ih (i + 1), List.map_cons, List.flatten_cons]
+
+/-- A decoder written from README.md opens every document of the specification encoder (and hence,
+    by `encrypt_layout`, every document `Encrypt` writes). -/
+theorem specDecrypt_specEncrypt (c : Crypto) (cd : Codec) (P : EncParams) (pwf : P.WF)
+    (lc : c.Lawful P.overhead) (lcd : cd.Lawful P) (fk : Bytes) (m : Manifest) (hm : m.valid P = true)
+    (p : Bytes) : specDecrypt c cd P fk (specEncrypt c cd P fk m p) = some p := by
+  have hform : specEncrypt c cd P fk m p =
+      P.scheme ++ 10 :: (cd.render m ++ 10 :: (cd.b64 (c.hmac (c.hkdf fk [] P.hdrInfo P.hdrKeyLen)
+        (P.scheme ++ [10] ++ cd.render m ++ [10])) ++ 10 ::
+        specPayload c P m.cph (c.hkdf fk m.np P.payInfo P.payKeyLen) m.np 0 (segments P.segSize p))) := by
+    simp [specEncrypt, List.append_assoc]
+  rw [hform]
+  unfold specDecrypt
+  rw [splitLine_append _ _ pwf.scheme_nl]
+  simp only []
+  rw [splitLine_append _ _ (lcd.render_line m).2]
+  simp only []
+  rw [splitLine_append _ _ (lcd.b64_line _ (lc.hmac_ne _ _)).2]
+  simp only [ne_eq, not_true_eq_false, if_false, lcd.parse_render m hm, lcd.unb64_b64]
+  have := segments_specPayload c P m.cph (c.hkdf fk m.np P.payInfo P.payKeyLen) m.np P.segSize pwf.seg_pos lc
+    (segments P.segSize p) 0 (segments_shape _ pwf.seg_pos _)
+  rw [this, specOpenSegs_sealed c P m.cph _ m.np P.overhead lc, segments_concat _ pwf.seg_pos]
+
 end Kit.Enc
